@@ -47,6 +47,7 @@ type Ctx struct {
 	notes    []string
 	start    time.Time
 	quiet    bool
+	variant  string
 	dump     bool
 	chain    map[*ssa.Function]bool
 	reachSet map[*ssa.Function]*callgraph.Edge
@@ -287,4 +288,19 @@ func (c *Ctx) finish(onlyKey string) int {
 		return 1
 	}
 	return 0
+}
+
+// printFailKeys is the output of a self-test variant run: one line per failing obligation
+// (floors included), nothing else.
+func (c *Ctx) printFailKeys() {
+	for r, fl := range c.floors {
+		if c.counts[r] < fl {
+			fmt.Printf("FAILKEY coverage-floor|%s\n", r)
+		}
+	}
+	for _, o := range c.obs {
+		if !o.OK {
+			fmt.Printf("FAILKEY %s\n", o.Key)
+		}
+	}
 }
